@@ -340,6 +340,7 @@ func cmdRun(args []string) {
 	}
 	emit(outLine{T: "stats", Stats: st, Dist: len(st.Distinct), Scheds: len(st.Schedules), States: len(st.States), Cov: coverage(), WallS: time.Since(t0).Seconds()})
 	f.Close()
+	dumpCoverage()
 }
 
 func cmdReplay(mode string, args []string) {
